@@ -5,7 +5,8 @@
 (*                                                                         *)
 (*   nextId      the global type-variable name counter (types/variable.rs: *)
 (*               one fetch_add per fresh name)                             *)
-(*   tls[t]      thread-local precomputed types (types/precomputed.rs):    *)
+(*   tls[t]      thread-local precomputed types (types/precomputed.rs: the  *)
+(*               powers of two, the byte buffers and the hash context):    *)
 (*               initialised on first use, compared by TMR, never shared   *)
 (*   mutex[c]    the mutex of inference context c (types/context.rs); each *)
 (*               thread works in contexts it created                       *)
@@ -32,7 +33,9 @@ EXTENDS Integers, Sequences, FiniteSets, SequencesExt, TLC
 
 CONSTANTS Thread,        \* set of threads
           MaxOps,        \* operations per thread
-          AtomicId, OwnedDrop, StackScratch
+          AtomicId, OwnedDrop, StackScratch,
+          PerThreadInit  \* TRUE: a thread that finds its thread-local tables empty fills them (the code);
+                         \* FALSE (named deviation): one process-wide "once" decides, so only the first thread ever fills its tables
 
 \* shared immutable nodes: a root with two children (what the iterative destructor walks)
 Node == {"root", "left", "right"}
@@ -63,7 +66,7 @@ Init ==
   /\ pc = [t \in Thread |-> "idle"]
   /\ nextId = 1 /\ loaded = [t \in Thread |-> 0]
   /\ names = [t \in Thread |-> {}]
-  /\ tls = [t \in Thread |-> FALSE]
+  /\ tls = [t \in Thread \cup {"once"} |-> FALSE]        \* (the key "once" is the process-wide flag of the deviation)
   /\ mutex = [t \in Thread |-> "free"]
   \* every thread starts with one reference to the shared root (the main thread handed them out)
   /\ rc = [o \in Node |-> IF o = "root" THEN Cardinality(Thread) ELSE 1]
@@ -81,7 +84,7 @@ Finish(t, res) == /\ log' = [log EXCEPT ![t] = Append(@, <<Cur(t), res>>)]
 (* ---- infer: lock own context, first use of thread-local types, draw a name, unlock ---- *)
 InferLock(t) == /\ pc[t] = "idle" /\ todo[t] # <<>> /\ Cur(t) = "infer"
                 /\ mutex[t] = "free" /\ mutex' = [mutex EXCEPT ![t] = t]
-                /\ tls' = [tls EXCEPT ![t] = TRUE]
+                /\ tls' = IF PerThreadInit \/ ~tls["once"] THEN [tls EXCEPT ![t] = TRUE, !["once"] = TRUE] ELSE tls
                 /\ pc' = [pc EXCEPT ![t] = "draw"]
                 /\ UNCHANGED <<todo, nextId, loaded, names, rc, freed, refs, pending, log, scratch>>
 DrawAtomic(t) == /\ AtomicId /\ pc[t] = "draw"
